@@ -24,7 +24,6 @@ use allsorts::tables::{Fixed, FontTableProvider, HeadTable, MaxpTable};
 use allsorts::tag;
 use allsorts::variations;
 use avh::prng::Rng;
-use std::io::Write;
 use std::panic::{catch_unwind, AssertUnwindSafe};
 use std::sync::Mutex;
 
@@ -200,6 +199,9 @@ fn mutate(data: &mut Vec<u8>, rng: &mut Rng, nmut: usize) {
 }
 
 fn short_file(f: &str) -> String {
+    if f.starts_with("src/") {
+        return format!("HARNESS/{}", f);
+    }
     match f.rfind("/src/") {
         Some(i) if f.contains("repo") || f.starts_with("/repo") => f[i + 5..].to_string(),
         _ => f.rsplit('/').take(2).collect::<Vec<_>>().into_iter().rev().collect::<Vec<_>>().join("/"),
@@ -412,7 +414,112 @@ fn exercise(data: &[u8], rng: &mut Rng) -> String {
     rep.bad.unwrap_or_else(|| "ok".to_string())
 }
 
+// ---- the other properties' harnesses as sources of structured untrusted input -------------------------
+// Byte mutation of fixture fonts rarely produces e.g. a cmap group spanning 2^32 code points or a cycle of
+// nested lookups; the generators of the per-property harnesses build such tables on purpose.  Their
+// `run` functions drive the crate's parsers / interpreters on the synthesised bytes; here only totality is
+// observed: any panic raised inside the crate (even one the component catches), the CPU time and the
+// largest single allocation request.
+macro_rules! component {
+    ($name:ident, $file:literal) => {
+        #[path = $file]
+        #[allow(dead_code, unused_imports, unused_variables, unused_mut)]
+        mod $name;
+    };
+}
+component!(c04, "c04.rs");
+component!(c05, "c05.rs");
+component!(c06, "c06.rs");
+component!(c07, "c07.rs");
+component!(c09, "c09.rs");
+component!(c10, "c10.rs");
+component!(c11, "c11.rs");
+component!(c12, "c12.rs");
+component!(c13, "c13.rs");
+component!(c16, "c16.rs");
+component!(c18, "c18.rs");
+
+type RunFn = fn(&str) -> String;
+type GenFn = fn(&mut Rng) -> String;
+const COMPONENTS: &[(&str, RunFn, GenFn)] = &[
+    ("c04", c04::run, c04::gen),
+    ("c05", c05::run, c05::gen),
+    ("c06", c06::run, c06::gen),
+    ("c07", c07::run, c07::gen),
+    ("c09", c09::run, c09::gen),
+    ("c10", c10::run, c10::gen),
+    ("c11", c11::run_case, c11::gen_case),
+    ("c12", c12::run, c12::gen),
+    ("c13", c13::run, c13::gen),
+    ("c16", c16::run, c16::gen),
+    ("c18", c18::run, c18::gen),
+];
+
+/// C04 case trees `M (gdef layout run glyphs)`: run kinds 0 / 2 are gsub::apply over the whole run; kind 1
+/// is gsub_apply_lookup on a caller-chosen window, where an out-of-range window is a caller error
+fn c04_whole_run(case: &str) -> bool {
+    let b = case.as_bytes();
+    let (mut depth, mut elem) = (0i32, 0);
+    for i in 0..b.len() {
+        match b[i] {
+            b'(' => {
+                depth += 1;
+                if depth == 2 {
+                    elem += 1;
+                    if elem == 3 {
+                        let rest = &case[i + 1..];
+                        return rest.starts_with("0 ") || rest.starts_with("2 ");
+                    }
+                }
+            }
+            b')' => depth -= 1,
+            _ => {}
+        }
+    }
+    false
+}
+
+fn gen_component(rng: &mut Rng) -> String {
+    loop {
+        let (name, _, g) = *rng.pick(COMPONENTS);
+        let line = g(rng);
+        if name == "c04" && !c04_whole_run(&line) {
+            continue;
+        }
+        return format!("X:{}:{}", name, line);
+    }
+}
+
+fn run_component(name: &str, line: &str) -> String {
+    let run = match COMPONENTS.iter().find(|c| c.0 == name) {
+        Some(c) => c.1,
+        None => return "ok".to_string(),
+    };
+    *LAST_PANIC.lock().unwrap() = String::new();
+    MAX_REQUEST.store(0, std::sync::atomic::Ordering::Relaxed);
+    let t = cpu_ms();
+    let r = catch_unwind(AssertUnwindSafe(|| run(line)));
+    let ms = cpu_ms() - t;
+    let max_req = MAX_REQUEST.load(std::sync::atomic::Ordering::Relaxed);
+    let loc = LAST_PANIC.lock().unwrap().clone();
+    // panics located in the harness sources themselves (relative path src/...) are not the crate's
+    if (r.is_err() || !loc.is_empty()) && !loc.starts_with("HARNESS") {
+        format!("panic:{}:{}", name, loc)
+    } else if ms > 4000 + (line.len() as u128) / 100 {
+        format!("slow:{}:{}", name, ms)
+    } else if max_req > (256 << 20) + 64 * line.len() {
+        format!("alloc:{}:{}MiB", name, max_req >> 20)
+    } else {
+        "ok".to_string()
+    }
+}
+
 fn run_case(input: &str) -> String {
+    if let Some(rest) = input.strip_prefix("X:") {
+        if let Some((name, line)) = rest.split_once(':') {
+            return run_component(name, line);
+        }
+    }
     let parts: Vec<&str> = input.split('|').collect();
     let mut data = std::fs::read(format!("{}/tests/fonts/{}", repo(), parts[0])).unwrap_or_default();
     let seed: u64 = parts[1].parse().unwrap();
@@ -424,11 +531,14 @@ fn run_case(input: &str) -> String {
     exercise(&data, &mut rng)
 }
 
-fn set_limits() {
-    unsafe {
-        let lim = libc::rlimit { rlim_cur: 6 << 30, rlim_max: 6 << 30 };
-        libc::setrlimit(libc::RLIMIT_AS, &lim);
+fn gen(rng: &mut Rng) -> String {
+    if rng.chance(1, 4) {
+        return gen_component(rng);
     }
+    let f = rng.pick(FIXTURES);
+    let many = rng.chance(1, 4);
+    let nmut = 1 + rng.below(if many { 12 } else { 3 }) as usize;
+    format!("{}|{}|{}", f, 1 + rng.next() % 1_000_000_007, nmut)
 }
 
 fn main() {
@@ -446,111 +556,16 @@ fn main() {
     if std::env::var("C01_ABORT_ON_HUGE").is_ok() {
         ABORT_ON_HUGE.store(true, std::sync::atomic::Ordering::Relaxed);
     }
-    let args: Vec<String> = std::env::args().collect();
-    match args.get(1).map(|s| s.as_str()) {
-        // child: run the listed inputs, append `input => result` lines to the out file, flush after each
-        Some("child") => {
-            set_limits();
-            let mut out = std::fs::OpenOptions::new().append(true).create(true).open(&args[2]).unwrap();
-            for input in &args[3..] {
-                let res = run_case(input);
-                writeln!(out, "{} => {}", input, res).unwrap();
-                out.flush().unwrap();
-            }
+    // cases run in child processes (avh::harness_main): an abort, a kill by the address-space limit or an
+    // endless loop is attributed to the one input that caused it
+    let mut k = 0usize;
+    let mut gen_all = |rng: &mut Rng| -> String {
+        // the pristine fixtures first, then mutated fixtures and synthetic component inputs
+        if k < FIXTURES.len() {
+            k += 1;
+            return format!("{}|0|0", FIXTURES[k - 1]);
         }
-        Some("gen") => {
-            let seed: u64 = args[2].parse().unwrap();
-            let count: usize = args[3].parse().unwrap();
-            let outfile = &args[4];
-            let _ = std::fs::remove_file(outfile);
-            let mut inputs: Vec<String> = vec![];
-            if let Some(corpus) = args.get(5) {
-                if let Ok(txt) = std::fs::read_to_string(corpus) {
-                    inputs.extend(txt.lines().filter(|l| !l.is_empty() && !l.starts_with('#')).map(String::from));
-                }
-            }
-            for f in FIXTURES {
-                inputs.push(format!("{}|0|0", f));
-            }
-            let mut rng = Rng::new(seed);
-            for _ in 0..count {
-                let f = rng.pick(FIXTURES);
-                let many = rng.chance(1, 4);
-                let nmut = 1 + rng.below(if many { 12 } else { 3 }) as usize;
-                inputs.push(format!("{}|{}|{}", f, 1 + rng.next() % 1_000_000_007, nmut));
-            }
-            // run in children, in parallel batches; a dead child is bisected down to the one input
-            let exe = std::env::current_exe().unwrap();
-            let chunks: Vec<Vec<String>> = inputs.chunks(25).map(|c| c.to_vec()).collect();
-            let workers = std::thread::available_parallelism().map(|n| n.get()).unwrap_or(4).min(16);
-            let queue = std::sync::Arc::new(Mutex::new(chunks));
-            let results = std::sync::Arc::new(Mutex::new(Vec::<String>::new()));
-            let mut handles = vec![];
-            for w in 0..workers {
-                let queue = queue.clone();
-                let results = results.clone();
-                let exe = exe.clone();
-                let part = format!("{}.part{}", outfile, w);
-                handles.push(std::thread::spawn(move || loop {
-                    let chunk = match queue.lock().unwrap().pop() {
-                        Some(c) => c,
-                        None => break,
-                    };
-                    let _ = std::fs::remove_file(&part);
-                    let status = std::process::Command::new(&exe).arg("child").arg(&part).args(&chunk).stderr(std::process::Stdio::null()).status();
-                    let done: Vec<String> = std::fs::read_to_string(&part).unwrap_or_default().lines().map(String::from).collect();
-                    let ok = matches!(&status, Ok(s) if s.success());
-                    let mut res = results.lock().unwrap();
-                    res.extend(done.iter().cloned());
-                    if !ok {
-                        // the input after the last completed one killed the child
-                        if let Some(bad) = chunk.get(done.len()) {
-                            let code = match &status {
-                                Ok(s) => format!("{:?}", s.code().map(|c| c.to_string()).unwrap_or_else(|| "signal".to_string())),
-                                Err(_) => "spawn".to_string(),
-                            };
-                            res.push(format!("{} => abort:{}", bad, code.replace('"', "")));
-                            // the rest of the chunk goes back on the queue
-                            let rest: Vec<String> = chunk[done.len() + 1..].to_vec();
-                            if !rest.is_empty() {
-                                queue.lock().unwrap().push(rest);
-                            }
-                        }
-                    }
-                    let _ = std::fs::remove_file(&part);
-                }));
-            }
-            for h in handles {
-                h.join().unwrap();
-            }
-            let mut res = results.lock().unwrap().clone();
-            res.sort();
-            let mut out = std::io::BufWriter::new(std::fs::File::create(outfile).unwrap());
-            for r in res {
-                writeln!(out, "{}", r).unwrap();
-            }
-        }
-        Some("replay") => {
-            // in a child, so that an abort is observed rather than suffered
-            let exe = std::env::current_exe().unwrap();
-            let part = std::env::temp_dir().join(format!("c01-replay-{}.part", std::process::id()));
-            let _ = std::fs::remove_file(&part);
-            let status = std::process::Command::new(&exe)
-                .arg("child")
-                .arg(&part)
-                .arg(&args[2])
-                .stderr(std::process::Stdio::null())
-                .status();
-            let done = std::fs::read_to_string(&part).unwrap_or_default();
-            let _ = std::fs::remove_file(&part);
-            match done.lines().next() {
-                Some(l) => println!("{}", l),
-                None => println!("{} => abort:{}", args[2], status.map(|s| s.code().map(|c| c.to_string()).unwrap_or_else(|| "signal".to_string())).unwrap_or_else(|_| "spawn".to_string())),
-            }
-        }
-        _ => {
-            eprintln!("usage: c01 gen <seed> <count> <out> [corpus] | replay <input>");
-            std::process::exit(2);
-        }
-    }
+        gen(rng)
+    };
+    avh::harness_main_keep_hook(&run_case, &mut gen_all);
 }
